@@ -18,7 +18,7 @@ ID = "C14"
 FN = "segment_clip"
 RULE = (
     "full product: clip start x clip length (0 included) x duration x hop (None included) x include_incomplete, "
-    "all dyadic, each on a real-time recording and on a x10 time-expanded one; plus, for every start/length/flag, every (duration, hop) pair in which at least one of the two is "
+    "all dyadic, each on a real-time recording and on a x10 time-expanded one and with duration/hop passed as Python float, numpy float64 and (whole numbers) Python int / numpy int64; plus, for every start/length/flag, every (duration, hop) pair in which at least one of the two is "
     "non-positive. Per valid case four calls: the call under test, the same call again, the same call on a parent "
     "with another uuid and equal bounds, and the same call with twice the hop (windows with equal bounds must get "
     "equal ids); with include_incomplete a fifth call with the same hop and twice the duration (equal bounds <=> equal "
@@ -113,6 +113,11 @@ def cases_of(tier, s, L):
                 yield {"s": s, "L": L, "d": d, "h": h, "incl": incl}
                 # the same case on a time-expanded (x10) recording: clip and window times are recording times all the same
                 yield {"s": s, "L": L, "d": d, "h": h, "incl": incl, "te": 10.0}
+                # the same numbers handed over as Python int / numpy scalars (whole-number durations and hops only for the ints)
+                if d == int(d) and (h is None or h == int(h)):
+                    yield {"s": s, "L": L, "d": d, "h": h, "incl": incl, "num": "int"}
+                    yield {"s": s, "L": L, "d": d, "h": h, "incl": incl, "num": "np_int64"}
+                yield {"s": s, "L": L, "d": d, "h": h, "incl": incl, "num": "np_float64"}
                 # the same case on a scaled lattice (powers of two keep every operation exact): millisecond-sized
                 # windows, where bounds differ only in the third decimal, and kilosecond-sized ones
                 for sc in SCALES[tier]:
@@ -153,7 +158,25 @@ def te_of(case):
     return float(case.get("te", 1.0))
 
 
+NUMS = ["int", "np_int64", "np_float64"]
+_NUM = ["float"]
+
+
+def as_num(x):
+    """The number x in the representation of the current case (Python float unless the case says otherwise)."""
+    import numpy as np
+    kind = _NUM[0]
+    if x is None or kind == "float":
+        return x
+    if kind == "np_float64":
+        return np.float64(x)
+    if float(x) != int(x):
+        return x
+    return int(x) if kind == "int" else np.int64(int(x))
+
+
 def call(clip, d, h, incl):
+    d, h = as_num(d), as_num(h)
     try:
         segs = list(segment_clip(clip, d, h, incl))
     except Exception as e:  # noqa
@@ -176,6 +199,7 @@ def run_case(case):
     s, L, d, h, incl = case["s"], case["L"], case["d"], case["h"], bool(case["incl"])
     e = s + L
     te = te_of(case)
+    _NUM[0] = case.get("num", "float")
     parent = data.Clip(uuid=U("c14:clip:a"), recording=rec_(te), start_time=s, end_time=e)
     heff = d if h is None else h
 
